@@ -13,18 +13,23 @@ package kvql
 //@ define passes(f *FilterExec, k B, v B) Bool = evalok(f.Ast.Expr, k, v) && evalv(f.Ast.Expr, k, v) == ABool(true)
 //
 //@ func (e *FilterExec) filterBatch(kvps []KVPair, ctx *ExecuteCtx) (ret []bool, err error)
-//@   props C01 C13
+//@   props C01 C13 C05
 //@   requires wfFilter(e)
+//@   requires[C05] one: len(kvps) == 1 && coherent(ctx, val(kvps[0].Key), val(kvps[0].Value)) && wfCtx(ctx) && wfRefs()
+//@   ensures[C05] coherent: coherent(ctx, val(kvps[0].Key), val(kvps[0].Value))
 //@   assigns ctx.Hit, mapof(ctx.FieldCaches)
 //@   ensures[C01] all: err == nil ==> len(ret) == len(kvps) && (forall i Int :: 0 <= i && i < len(kvps) ==> evOk(fexpr(e), val(kvps[i].Key), val(kvps[i].Value)) && ret[i] == passes(e, val(kvps[i].Key), val(kvps[i].Value)))
 //@   ensures[C01] some: err != nil ==> (exists i Int :: 0 <= i && i < len(kvps) && !evOk(fexpr(e), val(kvps[i].Key), val(kvps[i].Value)))
 //@   loop 0 (kvp)
 //@     invariant sofar: len(ret) == len(kvps) && (forall i Int :: 0 <= i && i <= rangeindex ==> evOk(fexpr(e), val(kvps[i].Key), val(kvps[i].Value)) && ret[i] == passes(e, val(kvps[i].Key), val(kvps[i].Value)))
 //@     invariant alias: ptr(ret) != ptr(kvps)
+//@     invariant[C05] coherent: coherent(ctx, val(kvps[0].Key), val(kvps[0].Value))
 //
 //@ func (e *FilterExec) Filter(kvp KVPair, ctx *ExecuteCtx) (ok bool, err error)
-//@   props C01 C13
+//@   props C01 C13 C05
 //@   requires wfFilter(e)
+//@   requires[C05] coherent: coherent(ctx, val(kvp.Key), val(kvp.Value)) && wfCtx(ctx) && wfRefs()
+//@   ensures[C05] coherent: coherent(ctx, val(kvp.Key), val(kvp.Value))
 //@   assigns ctx.Hit, mapof(ctx.FieldCaches)
 //@   ensures[C01] err: (err == nil) == evOk(fexpr(e), val(kvp.Key), val(kvp.Value))
 //@   ensures[C01] res: err == nil ==> ok == passes(e, val(kvp.Key), val(kvp.Value))
@@ -40,10 +45,12 @@ package kvql
 //@   ensures[C13] surfaced: (failed ==> err == lastErr) && (err == nil ==> !failed)
 //
 //@ func (p *FullScanPlan) Next(ctx *ExecuteCtx) (key []byte, value []byte, err error)
-//@   props C01 C13
+//@   props C01 C13 C05
+//@   requires[C05] c5: wfCtx(ctx) && wfRefs()
+//@   ensures[C05] coherent: err == nil && !isnil(key) ==> coherent(ctx, val(key), val(value))
 //@   ghost m Int
 //@   requires p != nil && wfFilter(p.Filter) && wfCur(p.iter) && !failed
-//@   assigns cpos(p.iter), nops, failed, lastErr, ctx.Hit, mapof(ctx.FieldCaches)
+//@   assigns cpos(p.iter), nops, failed, lastErr, ctx.Hit, mapof(ctx.FieldCaches), mapof(ctx.FieldChunkKeyCaches), mapof(ctx.FieldChunkCaches)
 //@   ensures[C01] found: err == nil && !isnil(key) ==> old(cpos(p.iter)) < cpos(p.iter) && wfCur(p.iter) && val(key) == ckey(p.iter, cpos(p.iter) - 1) && val(value) == cval(p.iter, cpos(p.iter) - 1) && passes(p.Filter, val(key), val(value))
 //@   ensures[C01] skipped: err == nil && old(cpos(p.iter)) <= m && m < cpos(p.iter) && !(!isnil(key) && m == cpos(p.iter) - 1) ==> !passes(p.Filter, ckey(p.iter, m), cval(p.iter, m))
 //@   ensures[C01] end: err == nil && isnil(key) ==> isnil(value) && cpos(p.iter) == clen(p.iter)
@@ -75,13 +82,15 @@ package kvql
 //@   ensures[C13] surfaced: (failed ==> err == lastErr) && (err == nil ==> !failed)
 //
 //@ func (p *PrefixScanPlan) Next(ctx *ExecuteCtx) (key []byte, value []byte, err error)
-//@   props C01 C13 C18
+//@   props C01 C13 C18 C05
+//@   requires[C05] c5: wfCtx(ctx) && wfRefs()
+//@   ensures[C05] coherent: err == nil && !isnil(key) ==> coherent(ctx, val(key), val(value))
 //@   ghost m Int
 //@   requires p != nil && wfFilter(p.Filter) && wfCur(p.iter) && !failed
 //@   requires (cpos(p.iter) < clen(p.iter) ==> val(p.Prefix) <= ckey(p.iter, cpos(p.iter)))
 //@   useatret csorted(p.iter, old(cpos(p.iter)), cpos(p.iter) - 1)
 //@   useatret csorted(p.iter, cpos(p.iter) - 1, m)
-//@   assigns cpos(p.iter), nops, failed, lastErr, ctx.Hit, mapof(ctx.FieldCaches)
+//@   assigns cpos(p.iter), nops, failed, lastErr, ctx.Hit, mapof(ctx.FieldCaches), mapof(ctx.FieldChunkKeyCaches), mapof(ctx.FieldChunkCaches)
 //@   ensures[C01] found: err == nil && !isnil(key) ==> old(cpos(p.iter)) < cpos(p.iter) && wfCur(p.iter) && val(key) == ckey(p.iter, cpos(p.iter) - 1) && val(value) == cval(p.iter, cpos(p.iter) - 1) && passes(p.Filter, val(key), val(value)) && pre(val(p.Prefix), val(key))
 //@   ensures[C01] skipped: err == nil && !isnil(key) && old(cpos(p.iter)) <= m && m < cpos(p.iter) - 1 ==> !passes(p.Filter, ckey(p.iter, m), cval(p.iter, m))
 //@   ensures[C01] end: err == nil && isnil(key) && old(cpos(p.iter)) <= m && m < clen(p.iter) ==> !(pre(val(p.Prefix), ckey(p.iter, m)) && passes(p.Filter, ckey(p.iter, m), cval(p.iter, m)))
@@ -107,13 +116,15 @@ package kvql
 //@   ensures[C13] surfaced: (failed ==> err == lastErr) && (err == nil ==> !failed)
 //
 //@ func (p *RangeScanPlan) Next(ctx *ExecuteCtx) (key []byte, value []byte, err error)
-//@   props C01 C13 C18
+//@   props C01 C13 C18 C05
+//@   requires[C05] c5: wfCtx(ctx) && wfRefs()
+//@   ensures[C05] coherent: err == nil && !isnil(key) ==> coherent(ctx, val(key), val(value))
 //@   ghost m Int
 //@   requires p != nil && wfFilter(p.Filter) && wfCur(p.iter) && !failed
 //@   requires (cpos(p.iter) < clen(p.iter) ==> isnil(p.Start) || val(p.Start) <= ckey(p.iter, cpos(p.iter)))
 //@   use csorted(p.iter, cpos(p.iter), m)
 //@   useatret csorted(p.iter, cpos(p.iter) - 1, m)
-//@   assigns cpos(p.iter), nops, failed, lastErr, ctx.Hit, mapof(ctx.FieldCaches)
+//@   assigns cpos(p.iter), nops, failed, lastErr, ctx.Hit, mapof(ctx.FieldCaches), mapof(ctx.FieldChunkKeyCaches), mapof(ctx.FieldChunkCaches)
 //@   ensures[C01] found: err == nil && !isnil(key) ==> old(cpos(p.iter)) < cpos(p.iter) && wfCur(p.iter) && val(key) == ckey(p.iter, cpos(p.iter) - 1) && val(value) == cval(p.iter, cpos(p.iter) - 1) && passes(p.Filter, val(key), val(value)) && (isnil(p.End) || val(key) <= val(p.End))
 //@   ensures[C01] skipped: err == nil && !isnil(key) && old(cpos(p.iter)) <= m && m < cpos(p.iter) - 1 ==> !passes(p.Filter, ckey(p.iter, m), cval(p.iter, m))
 //@   ensures[C01] end: err == nil && isnil(key) && old(cpos(p.iter)) <= m && m < clen(p.iter) ==> !(inRng(p, ckey(p.iter, m)) && passes(p.Filter, ckey(p.iter, m), cval(p.iter, m)))
@@ -134,10 +145,12 @@ package kvql
 //@   ensures[C18] noread: err == nil && nops == old(nops)
 //
 //@ func (p *MultiGetPlan) Next(ctx *ExecuteCtx) (key []byte, value []byte, err error)
-//@   props C01 C13 C18
+//@   props C01 C13 C18 C05
+//@   requires[C05] c5: wfCtx(ctx) && wfRefs()
+//@   ensures[C05] coherent: err == nil && !isnil(key) ==> coherent(ctx, val(key), val(value))
 //@   ghost m Int
 //@   requires wfMGet(p) && !failed
-//@   assigns p.idx, nops, failed, lastErr, lastGet, ctx.Hit, mapof(ctx.FieldCaches)
+//@   assigns p.idx, nops, failed, lastErr, lastGet, ctx.Hit, mapof(ctx.FieldCaches), mapof(ctx.FieldChunkKeyCaches), mapof(ctx.FieldChunkCaches)
 //@   ensures[C01] inv: wfMGet(p) && old(p.idx) <= p.idx
 //@   ensures[C01] found: err == nil && !isnil(key) ==> old(p.idx) < p.idx && val(key) == val(p.Keys[p.idx - 1]) && shas(val(key)) && val(value) == sget(val(key)) && passes(p.Filter, val(key), val(value))
 //@   ensures[C01] skipped: err == nil && old(p.idx) <= m && m < p.idx && !(!isnil(key) && m == p.idx - 1) ==> !(shas(val(p.Keys[m])) && passes(p.Filter, val(p.Keys[m]), sget(val(p.Keys[m]))))
@@ -159,7 +172,8 @@ package kvql
 //@   ensures[C18] noread: err == nil && nops == old(nops)
 //
 //@ func (p *EmptyResultPlan) Next(ctx *ExecuteCtx) (key []byte, value []byte, err error)
-//@   props C13 C18
+//@   props C13 C18 C05
+//@   ensures[C05] coherent: err == nil && !isnil(key) ==> coherent(ctx, val(key), val(value))
 //@   assigns nothing
 //@   ensures[C18] noread: err == nil && isnil(key) && isnil(value) && nops == old(nops)
 //
